@@ -120,6 +120,13 @@ class C13(Hist1Prop):
             if a is None:
                 continue
             old, new = np.dtype(b["dtype"]), np.dtype(a["dtype"])
+            if name == "set_dtype":
+                okd = self.set_dtype_ok(b, op["dtype"]) if not any(x in ("inf", "-inf", None) for x in b["freq"] + b["err2"]) else True
+                if not okd:
+                    fails.append(f"accepted_invalid: set_dtype({op['dtype']}) accepted although values do not fit: freq {b['freq']} err2 {b['err2']}")
+                    continue
+            if any(x in ("inf", "-inf", None) for r in (a, b) for x in r["freq"] + r["err2"]):
+                continue
             if name == "fill":
                 if op["v"] is None:
                     exp = old
